@@ -312,7 +312,7 @@ impl TermGen {
                 t
             }
             9 if self.allow_constr_case => {
-                let n = r.below(3);
+                let n = r.below(5);
                 Term::Constr { tag: r.below(3), fields: (0..n).map(|_| self.gen(r, K::Any, env, depth.saturating_sub(1))).collect() }
             }
             10 if self.allow_constr_case => {
@@ -376,10 +376,12 @@ impl TermGen {
             9 => force(delay(self.gen(r, k, env, depth - 1))),
             10 if self.allow_constr_case => {
                 // case (constr i fields) branches: branch i is a lambda over the fields
-                let nb = 1 + r.below(3);
+                let nb = 1 + r.below(4);
                 let tag = r.below(nb);
-                let nf = r.below(3);
-                let fks: Vec<K> = (0..nf).map(|_| *r.pick(&[K::Int, K::Bytes, K::Bool, K::Data])).collect();
+                let nf = r.below(6);
+                // mostly same-kind fields, so that a permutation of the fields is observable
+                let same = *r.pick(&[K::Int, K::Bytes, K::Int]);
+                let fks: Vec<K> = (0..nf).map(|_| if r.chance(2, 3) { same } else { *r.pick(&[K::Int, K::Bytes, K::Bool, K::Data]) }).collect();
                 let fields: Vec<T> = fks.iter().map(|fk| self.gen(r, *fk, env, depth - 1)).collect();
                 let branches: Vec<T> = (0..nb)
                     .map(|_| {
@@ -387,7 +389,13 @@ impl TermGen {
                         for fk in fks.iter() {
                             e.push(*fk);
                         }
-                        let mut b = self.gen(r, k, &e, depth - 1);
+                        // half of the time return all the fields in order (as a constr), so that any
+                        // mis-ordering or loss of a field shows in the result
+                        let mut b = if r.chance(1, 2) {
+                            Term::Constr { tag: 0, fields: (0..nf).map(|j| var(nf - j)).collect() }
+                        } else {
+                            self.gen(r, k, &e, depth - 1)
+                        };
                         for _ in 0..nf {
                             b = lam(b);
                         }
